@@ -61,8 +61,30 @@ def gen(rng, tier):
         tie = len(set(keys)) < len(keys)
         case = ['xsort', cs, threads, comp, rev, ['items'] + items]
         if rev == 0 and rng.random() < 0.3:
-            case.append('ord')                       # ExternalSorter::sort (T: Ord) instead of sort_by
+            case.append('ord')
+        elif rng.random() < 0.3:
+            case.append('dropfirst')                 # the sorter is dropped before the returned stream is read                       # ExternalSorter::sort (T: Ord) instead of sort_by
         yield Case(sx.dump(case), nruns >= 2 and (tie or big), 'c%s' % comp)
+    # one record far above any plausible internal size cap (20 MiB payload)
+    for _ in range(1 if tier == 'quick' else 4):
+        items = [[rng.randint(0, 5), 800000 + i, 0] for i in range(8)]
+        items[rng.randrange(8)][2] = 20 * 1024 * 1024 + rng.randint(0, 100)
+        yield Case(sx.dump(['xsort', rng.choice([3, 100]), 1, rng.choice(['none', 1]), 0, ['items'] + items]), True, 'huge-record')
+    # a disk that fills up while chunks are spilled (RLIMIT_FSIZE): an error must be reported, or everything delivered
+    def vlen(x):
+        return 1 if x < 251 else (3 if x < 65536 else 5)
+    for _ in range(10 if tier == 'quick' else 200):
+        nn = rng.choice([100, 333, 1000, 3000])
+        # the harness sorts records ((i*7919) % 1009, i): with one chunk they are spilled in sorted order
+        recs = sorted(((i * 7919) % 1009, i) for i in range(nn))
+        offs = [0]
+        for k, i in recs:
+            offs.append(offs[-1] + 8 + vlen(k) + vlen(i))
+        size = offs[-1]
+        j = rng.randrange(1, len(offs) - 1)
+        quota = rng.choice([offs[j], offs[j] + rng.randint(1, 7), offs[-2], offs[-2] + 3, size - 1, size // 2, 8192, 8191, size, size + 4096, 10**9])
+        cs = rng.choice(['default', 'default', nn, nn // 2 + 1, 40])
+        yield Case(sx.dump(['xsortquota', cs, rng.choice(['none', 'none', 1]), max(1, quota), nn]), True, 'quota')
     # a few large runs: par_sort_unstable_by really runs in parallel on them (several thousand items per chunk)
     for _ in range(2 if tier == 'quick' else 40):
         L = rng.choice([3000, 6000])
@@ -115,6 +137,12 @@ def gen_two(rng, tier):
 
 
 _gen_kid = None
+
+
+def agree(case, impl, model):
+    if case.startswith('(xsortquota'):
+        return impl in ('(r oracle-only reported)', '(r oracle-only complete)')
+    return canon(case, impl) == canon(case, model)
 
 
 def canon(case, out):
